@@ -422,8 +422,8 @@ def write_evidence(mod, prop, tier, seed, ev, wall, nviol, build_s, known, worke
         "max_distinct_edges_in_one_run": ev["max_cov_edges"],
         "known_findings_reproduced": ev["known_hits"],
         "collateral_monitor_hits": ev["collateral"],
-        "components": {"real": ["src/lib/** of /repo (all PKCS#11 entry points, policy, session/slot/handle managers, object store, SecureDataManager, OpenSSL glue)", "OpenSSL libcrypto", "glibc stdio buffering"],
-                        "stub": ["kernel VFS (simfs: files, dirs, modes, fcntl locks, readdir order)", "RNG (seeded RAND_METHOD)", "scheduler / process boundary (parked threads, symbol-renamed library copies)", "time(), getpid(), syslog(), exit()"]},
+        "components": {"real": ["src/lib/** of /repo (all PKCS#11 entry points, policy, session/slot/handle managers, object store, SecureDataManager, OpenSSL glue)", "OpenSSL libcrypto", "glibc stdio buffering", "SQLite 3 above its VFS (pager, rollback journal, hot-journal recovery, b-tree, SQL) in the runs that use the SQLite object store"],
+                        "stub": ["kernel VFS (simfs: files, dirs, modes, fcntl locks, readdir order)", "SQLite VFS (sim/simvfs.inc: files on simfs, SHARED/RESERVED/PENDING/EXCLUSIVE locks per file handle, fsync = no durability event, journal created with its database's mode, deterministic randomness/time/sleep)", "RNG (seeded RAND_METHOD)", "scheduler / process boundary (parked threads, symbol-renamed library copies)", "time(), getpid(), syslog(), exit()"]},
         "workers": workers, "build_s": round(build_s, 1),
     }
     if hasattr(mod, "COMPONENTS"): cov["components"] = mod.COMPONENTS
